@@ -237,7 +237,13 @@ def check(ctx):
     for rec in cases[:: max(1, len(cases) // 3)][:3]:
         samples.append({"grammar": data["grammars"][rec["g"]]["text"].split("}\n", 1)[-1].strip()[:300], "options": rec["o"],
                         "inputs": rec["inputs"][:3], "entry": rec.get("entry"), "implementation": (rec.get("impl") or [""])[0][:200]})
+    wfc = collections.Counter()
+    for gid, gi in data["grammars"].items():
+        gen = B.parse_obs(gi["opts"].get("d", {}).get("gen") or "")
+        wfc["wf" if gen.get("wf") == "1" else "not-wf-or-unknown"] += 1
+        wfc["good" if gen.get("good") == "1" else "not-good"] += 1
     ctx.coverage.update({
+        "grammars_well_formed": dict(wfc),
         "evaluations": n_eval,
         "distinct_nontrivial": len(nontriv),
         "rule": "random + corpus grammars (every operator; captures/actions inside failing branches and lookahead), each generated by the peg built from /repo under the option sets %s, compiled, and run on short inputs over {a,b,c,d}+specials; every case is also run on the extracted model (machine and reference semantics) and compared observable by observable (%s); non-trivial: see harness/props/corecheck.py (%s)" % (",".join(opts), ",".join(sorted(aspects | saspects)), pid),
